@@ -2,6 +2,9 @@
 //! See /verif/DESIGN.md.
 
 mod core;
+mod lexgen;
+mod lexmodel;
+mod lexoverlap;
 mod props;
 mod run;
 mod tape;
